@@ -1,6 +1,11 @@
 package vs
 
-import "fmt"
+import (
+	"fmt"
+	"runtime"
+	"strings"
+	"unsafe"
+)
 
 // ---- channels -----------------------------------------------------------------------------------
 
@@ -47,6 +52,25 @@ type Case struct {
 	send bool
 	val  any
 	slot *slotCore
+	fn   string // function performing a send (diagnostics of the close-vs-send oracle)
+}
+
+const chanCloseLoc = "chan.close-vs-send"
+
+// callerFunc names the function skip frames up (package-qualified, line independent).
+func callerFunc(skip int) string {
+	pc, _, _, ok := runtime.Caller(skip)
+	if !ok {
+		return "?"
+	}
+	n := runtime.FuncForPC(pc).Name()
+	if i := strings.LastIndex(n, "/"); i >= 0 {
+		n = n[i+1:]
+	}
+	for strings.Contains(n, ".func") { // closures: name the enclosing function
+		n = n[:strings.LastIndex(n, ".func")]
+	}
+	return n
 }
 
 type slotCore struct {
@@ -74,7 +98,9 @@ func (sl *Slot[T]) sync() {
 }
 
 func (c *Chan[T]) RecvCase(sl *Slot[T]) Case { return Case{c: c.core(), slot: &sl.s} }
-func (c *Chan[T]) SendCase(v T) Case         { return Case{c: c.core(), send: true, val: v} }
+func (c *Chan[T]) SendCase(v T) Case {
+	return Case{c: c.core(), send: true, val: v, fn: callerFunc(2)}
+}
 
 // Sync copies the received value out of the slot core (called by generated code after Select).
 func (sl *Slot[T]) Sync() *Slot[T] { sl.sync(); return sl }
@@ -130,6 +156,9 @@ func (sc *sched) performCase(t *thread, cs *Case) {
 		if c.closed {
 			panic("send on closed channel")
 		}
+		// a send that is not ordered with the close of its channel can meet it in another schedule
+		// (Go's race detector reports the same pair): the send reads the channel's open state
+		Access(unsafe.Pointer(c), chanCloseLoc, false, cs.fn)
 		// release: publish the clock, then advance it (later events of t are not covered)
 		if u, i := sc.parkedPartner(t, c, false); u != nil && len(c.buf) == 0 {
 			// hand over directly to the oldest parked receiver
@@ -158,6 +187,7 @@ func (sc *sched) performCase(t *thread, cs *Case) {
 		// a sender parked on the full buffer moves in
 		if u, i := sc.parkedPartner(t, c, true); u != nil {
 			ucs := &u.op.cases[i]
+			sc.accessBy(u, unsafe.Pointer(c), chanCloseLoc, false, ucs.fn)
 			c.buf = append(c.buf, item{ucs.val, u.vc.clone()})
 			u.vc.tick(u.id)
 			u.op.completed, u.op.chosen = true, i
@@ -166,6 +196,7 @@ func (sc *sched) performCase(t *thread, cs *Case) {
 	}
 	if u, i := sc.parkedPartner(t, c, true); u != nil {
 		ucs := &u.op.cases[i]
+		sc.accessBy(u, unsafe.Pointer(c), chanCloseLoc, false, ucs.fn)
 		cs.slot.v, cs.slot.ok = ucs.val, true
 		tv := t.vc.clone()
 		t.vc.join(u.vc)
@@ -196,7 +227,7 @@ func (c *Chan[T]) Send(v T) {
 	if sc == nil {
 		panic("vs: channel operation outside an execution")
 	}
-	sc.yield(&op{kind: opSend, cases: []Case{{c: c.core(), send: true, val: v}}, desc: describe("send", c.core())})
+	sc.yield(&op{kind: opSend, cases: []Case{{c: c.core(), send: true, val: v, fn: callerFunc(2)}}, desc: describe("send", c.core())})
 }
 
 // Recv is `<-c`.
@@ -235,6 +266,7 @@ func (c *Chan[T]) Close() {
 		return
 	}
 	t := sc.cur
+	Access(unsafe.Pointer(cc), chanCloseLoc, true, callerFunc(2))
 	cc.closed = true
 	cc.closeVC = t.vc.clone()
 	t.vc.tick(t.id)
